@@ -3,6 +3,8 @@
 # /verif/seeded/MATRIX.md and seeded/<id>/detected.txt
 cd /verif
 M=/verif/seeded/MATRIX.md
+# ONLY="C05-8 C09-8": re-run just these changes and replace / append their rows in the existing table
+if [ -n "${ONLY:-}" ]; then M=/verif/work/MATRIX.part.md; fi
 echo "# Seeded changes x checks" > $M
 echo >> $M
 echo "Each change is applied to /repo (\`git apply\`), the property's quick check is run, the change is reverted (\`git checkout -- .\`)." >> $M
@@ -11,6 +13,7 @@ echo "| id | what the change does | needs | check | result | signatures reported
 echo "|---|---|---|---|---|---|" >> $M
 for d in /verif/seeded/C*-*/; do
   id=$(basename $d); c=${id%-*}
+  if [ -n "${ONLY:-}" ] && ! echo " $ONLY " | grep -q " $id "; then continue; fi
   cd /repo; git checkout -q -- .
   if ! git apply $d/patch.diff 2>/dev/null; then echo "| $id | (patch does not apply) | | | | |" >> $M; continue; fi
   # the property's own check first; seeded/<id>/also.txt may name sibling checks to try when it stays silent
@@ -34,3 +37,21 @@ for d in /verif/seeded/C*-*/; do
   echo "$id rc=$rc"
 done
 cd /repo; git checkout -q -- .
+if [ -n "${ONLY:-}" ]; then
+  python3 - <<'PY'
+import re
+full='/verif/seeded/MATRIX.md'; part='/verif/work/MATRIX.part.md'
+rows={}
+head=[]
+for l in open(full):
+    m=re.match(r'\| (C\d\d-\d+) \|',l)
+    if m: rows[m.group(1)]=l
+    else: head.append(l)
+for l in open(part):
+    m=re.match(r'\| (C\d\d-\d+) \|',l)
+    if m: rows[m.group(1)]=l
+def key(i):
+    a,b=i.split('-'); return (a,int(b))
+open(full,'w').write(''.join(head)+''.join(rows[k] for k in sorted(rows,key=key)))
+PY
+fi
